@@ -262,6 +262,42 @@ def run(ctx, chk):
             chk.ob('C04.T6', 'wipe:truncates-to-the-documented-size', bool(inf['truncates']), inf['where'],
                    'wipe %s' % ('truncates via %s' % inf['truncates'] if inf['truncates'] else
                                 'never truncates the file: a longer unusable file keeps its old length and trailing bytes instead of the documented layout'))
+    # ---- T10 who may create / truncate / remove files in the daemon: only the repair chain of ShmWriter::new (T1 decides
+    # path by path that it runs after a failed probe only). Anything else the daemon's start-up reaches that creates,
+    # truncates, removes or renames a file -- a "writability check" in main, a clean-up on the way in -- can empty the very
+    # segment a predecessor left valid, before the probe ever looks at it.
+    if m.ok and not getattr(chk, '_nested', False):
+        mb = common.daemon_main(fb)
+        allowed = set(m.reachable_bodies())
+        MUT_LAST = ('create', 'create_new', 'truncate', 'set_len', 'remove_file', 'remove_dir_all', 'remove_dir', 'rename', 'copy',
+                    'ftruncate', 'unlink', 'unlinkat', 'write', 'append')
+
+        def mutating(nm):
+            last = nm.split('::')[-1]
+            if last not in MUT_LAST:
+                return False
+            if last in ('write', 'append'):
+                return nm.endswith(('fs::write', 'OpenOptions::write', 'OpenOptions::append'))
+            if last == 'copy':
+                return nm.endswith('fs::copy')
+            return 'fs::' in nm or 'File' in nm or 'OpenOptions' in nm or nm.startswith(('nix::', 'libc::'))
+        n_sites = 0
+        if mb is None:
+            chk.missing('C04.T10', "the daemon binary's main")
+        else:
+            for ob, bb, t, fn in common.reachable_calls(fb, mb):
+                n_sites += 1
+                nm = mir.callee_name(fn)
+                if not mutating(nm) and not mutating(fn.get('path') or ''):
+                    continue
+                owner = ob.path.split('::{closure')[0]
+                inside = ob.path in allowed or owner in allowed
+                chk.ob('C04.T10', 'files:mutated-only-by-the-repair-chain:%s' % nm.split('::')[-1], inside, ob.where(bb),
+                       '%s calls %s %s' % (ob.path, nm, 'inside the repair chain of ShmWriter::new' if inside else
+                                           '-- outside ShmWriter::new and its helpers: the daemon creates / truncates / removes a file '
+                                           'without having probed the segment first'), nontrivial=not inside)
+            chk.analysed['call_sites'] += n_sites
+            chk.floor('C04.T10', "call sites reachable from the daemon's main", n_sites, 40)
     # ---- T4 odd start (C11 evaluated on odd values), reader guard table (C03.G1), and T8: the probe
     # (= the open decision list, C16.V1-V3) rejects a file only for the documented reasons -- any
     # extra reason would make a restarted daemon wipe a segment its predecessor left valid
